@@ -303,15 +303,20 @@ TraverseFrom(pre, seg) ==
   /\ UNCHANGED <<prune, db, root, rc, contents, root2, contents2, bopen, cache, corder,
                  broot, brc, bcontents, bops, lost, past>>
 
+\* (feature guards are repeated outside the quantifiers so that TLC does not enumerate
+\* the bound sets of actions that are switched off)
 Other == \/ \E k \in Keys : \E v \in Vals \cup {NoVal} :
-             Direct(k, v) \/ BatchOp(k, v) \/ Direct2(k, v) \/ (\E j \in 1..8 : FailWrite(k, v, j))
-         \/ Commit \/ Abort \/ (\E j \in 1..8 : CommitFail(j))
-         \/ \E p \in past : Adopt2(p)
-         \/ \E n \in db : EnvLose(n)
-         \/ \E n \in lost : EnvSupply(n)
-         \/ \E k \in LookupKeys : Get(k)
-         \/ \E p \in TravPaths(contents) : Traverse(p)
-         \/ \E p \in TravPaths(contents) : \E sp \in Splits(p) : TraverseFrom(sp[1], sp[2])
+             \/ Direct(k, v) \/ BatchOp(k, v)
+             \/ ("second" \in Features /\ Direct2(k, v))
+             \/ ("failwrite" \in Features /\ \E j \in 1..8 : FailWrite(k, v, j))
+         \/ Commit \/ Abort
+         \/ ("failwrite" \in Features /\ \E j \in 1..8 : CommitFail(j))
+         \/ ("second" \in Features /\ \E p \in past : Adopt2(p))
+         \/ ("lose" \in Features /\ \E n \in db : EnvLose(n))
+         \/ ("lose" \in Features /\ \E n \in lost : EnvSupply(n))
+         \/ ("get" \in Features /\ \E k \in LookupKeys : Get(k))
+         \/ ("trav" \in Features /\ \E p \in TravPaths(contents) : Traverse(p))
+         \/ ("trav" \in Features /\ \E p \in TravPaths(contents) : \E sp \in Splits(p) : TraverseFrom(sp[1], sp[2]))
 Next == Begin \/ (Other /\ UNCHANGED saved)
 Spec == Init /\ [][Next]_vars
 
@@ -455,6 +460,23 @@ GetSameAsComplete ==
   \A k \in LookupKeys :
      LET g == GetOut(root, k, Only(db), Bugs) IN
      g.kind = "missing" \/ g = GVal(ModelVal(contents, k))
+
+\* C10  iteration: next() is the strict successor, the pre-order walk yields sorted items
+IterQueries == LookupKeys
+KeyAfterIsSucc == \A q \in IterQueries : KeyAfter(root, q) = SuccOf(Live(contents), q)
+FirstIsMin == NextKeyIn(root, <<>>) = MinKey(Live(contents))
+RECURSIVE ItemsOf(_, _)
+ItemsOf(pre, i) == IF i > Len(pre) THEN <<>>
+                   ELSE (IF NodeValue(pre[i].n) # NoVal
+                         THEN << <<pre[i].p \o Suffix(pre[i].n), NodeValue(pre[i].n)>> >> ELSE <<>>)
+                        \o ItemsOf(pre, i + 1)
+PreorderItemsSorted ==
+  LET ks == SortedKeys(Live(contents)) IN
+  ItemsOf(Preorder(root, <<>>), 1) = [i \in 1..Len(ks) |-> <<ks[i], contents[ks[i]]>>]
+\* every node of the pre-order is what a traversal of its prefix returns
+PreorderIsTraverse ==
+  LET pre == Preorder(root, <<>>) IN
+  \A i \in 1..Len(pre) : LET o == TravRoot(root, pre[i].p, Complete) IN o.kind = "node" /\ o.n = pre[i].n
 
 \* C03  proofs
 ProofSet(r, k) == LET pf == Proof(r, k) IN {pf[i] : i \in 1..Len(pf)}
